@@ -721,6 +721,10 @@ func genCaseRules(c *Ctx, mode string) {
 			}
 		}
 	}
+	// contract-call epilogue (implementation only, see node_contract.go)
+	if rng.Intn(2) == 0 && !nc.dead {
+		nc.contractCallEpilogue()
+	}
 	c.Distinct(fmt.Sprintf("rules-%d-%d", c.Seed, c.nOps))
 	c.Count(fmt.Sprintf("E=%d", E))
 }
